@@ -110,6 +110,17 @@ def run(v, tier, rng):
     for si, e in enumerate(shapes):
         for pos in (posns if tier == "thorough" else [posns[si % len(posns)], posns[(si * 7 + 3) % len(posns)]]):
             add("exprshape", text="K\tEQU\t3\nlbl:\n" + pos % e)
+    # EQU graphs: small sets of definitions whose bodies mention each other (cycles of every length, forward references,
+    # redefinitions, parenthesised and scaled terms), then uses of every name
+    enames = ["A", "B", "Q", "R", "S"]
+    bodies = ["%s", "%s+1", "(%s+%s)+%s", "(%s+1)*2", "%s*%s", "%s-(%s)", "2*(%s+%s)", "(%s)", "%s+%s+3", "5", "(%s*2)+(%s/3)"]
+    for _ in range(400 * n):
+        defs = []
+        for _k in range(rng.randrange(2, 6)):
+            b = rng.choice(bodies)
+            defs.append("%s\tEQU\t%s\n" % (rng.choice(enames), b % tuple(rng.choice(enames + ["7"]) for _x in range(b.count("%s")))))
+        use = rng.choice(["\tDW\t%s\n", "\tMOV\tAX,%s\n", "\tDB\t%s+1\n", "\tMOV\tCX,[BX+%s]\n", "\tRESB\t%s\n"])
+        add("equgraph", text="".join(defs) + "".join(use % x for x in rng.sample(enames, 3)))
     # scaling: length and nesting depth
     scale = []
     for nlines in ([1000, 10000] if tier == "quick" else [1000, 10000, 100000]):
